@@ -875,7 +875,7 @@ Qed.
    `block_pre` / `abs_child_block` is run against the implementation on whole trees by `vh taffytree` (notes/TAFFYTREE.md).
    Scope (audit, wave 7b): ONE memoised query with the same input on both sides, from FRESH trees; `orel` also relates two evaluations that
    both run out of fuel.  What the runner executes is taffy_compute_root (root input computed from the root style, the root's layout stored)
-   iterated over several passes: that composition (C05_hidden_blind_engine_step + a non-hidden root) is by hand, not stated.  Where the Rust
+   iterated over several passes: that composition is C05_taffy_layout_pass_hidden_invisible / C05_taffy_layout_passes_hidden_invisible (end of this file).  Where the Rust
    code panics the grid branch is the total stand-in of Model/GridAlgTotal.v; the panic region is proved blind (grid_no_panic_none_rel), so the
    stand-in is the same resumption on both sides.  Computed instance: C05_taffy_engine_example at the end of this file. *)
 Theorem C05_taffy_engine_hidden_invisible :
